@@ -181,6 +181,8 @@ type bcfg struct {
 	ns     []int // n values of GetPeers
 	depth  int
 	floor  int64 // relative time stamps below floor are identified in the state key
+	vars   int   // field variants per peer (0: 2)
+	advs   []int // clock advances in units (nil: 1 and TTL-1)
 }
 
 type ann struct {
@@ -214,14 +216,25 @@ func (s *bsys) Close() { s.st.Close() }
 
 func (s *bsys) Ops() []string {
 	var ops []string
+	nv := s.c.vars
+	if nv == 0 {
+		nv = 2
+	}
 	for h := 0; h < s.c.nh; h++ {
 		for p := 0; p < s.c.np; p++ {
-			for v := 0; v < 2; v++ {
+			for v := 0; v < nv; v++ {
 				ops = append(ops, fmt.Sprintf("u %d %d %d", h, p, v))
 			}
 		}
 	}
-	ops = append(ops, "adv 1", fmt.Sprintf("adv %d", ttlUnits-1), "ce", "cg")
+	advs := s.c.advs
+	if advs == nil {
+		advs = []int{1, ttlUnits - 1}
+	}
+	for _, d := range advs {
+		ops = append(ops, fmt.Sprintf("adv %d", d))
+	}
+	ops = append(ops, "ce", "cg")
 	for h := 0; h < s.c.nh; h++ {
 		for _, n := range s.c.ns {
 			ops = append(ops, fmt.Sprintf("g %d %d", h, n))
@@ -769,12 +782,12 @@ func main() {
 	vrt.WorkerMain(hs)
 
 	run := evid.New("C27", "model_checking")
-	run.Rule = "E3: every history up to depth d (or to the fixpoint) over {UpdatePeer(h,peer,variant), GetPeers(h,n) under every permutation rand.Perm can draw, advance 1 / TTL-1, cleanupExpiredPeerEntries, cleanupExpiredPeerGroups} executed on a real peerstore.LocalStore with an explicit clock and compared with a latest-announcement model after every step (BFS, deduplicated on model + dumped store state); E1: every interleaving at the lock operations of tracker/peerstore (preemption-bounded DFS) of one cleanup thread against announcer/reader/clock threads; in the scenarios whose clock moves concurrently (tick-to-expiry and the clock-skew family {no group, group with an older entry} x {two peers, same peer with other fields} x two-step clock programs (a,b) with b < TTL < a+b) every clock read of the store is a scheduling point too, so an announcer is preempted between its clock read and its write while time passes, a later announcer completes and the cleanup passes run. distinct = distinct BFS states + distinct outcome classes (set of peers each lookup returned, whether an announce overlapped a cleanup pass) per scenario."
+	run.Rule = "E3: every history up to depth d (or to the fixpoint) over {UpdatePeer(h,peer,variant), GetPeers(h,n) under every permutation rand.Perm can draw, advance 1 / TTL-1, cleanupExpiredPeerEntries, cleanupExpiredPeerGroups} executed on a real peerstore.LocalStore with an explicit clock and compared with a latest-announcement model after every step (BFS, deduplicated on model + dumped store state); renewal family: every history, to the fixpoint, over {UpdatePeer(peer) for 3 peers of ONE torrent, advance 1 / TTL/2 / TTL-1, cleanupExpiredPeerEntries, cleanupExpiredPeerGroups} with a full lookup after every step, so that renewals of early list entries, swap-removals by the entries pass and a later, separately timed groups pass (group lastExpiresAt bookkeeping) are all sequenced against each other; E1: every interleaving at the lock operations of tracker/peerstore (preemption-bounded DFS) of one cleanup thread against announcer/reader/clock threads; in the scenarios whose clock moves concurrently (tick-to-expiry and the clock-skew family {no group, group with an older entry} x {two peers, same peer with other fields} x two-step clock programs (a,b) with b < TTL < a+b) every clock read of the store is a scheduling point too, so an announcer is preempted between its clock read and its write while time passes, a later announcer completes and the cleanup passes run. distinct = distinct BFS states + distinct outcome classes (set of peers each lookup returned, whether an announce overlapped a cleanup pass) per scenario."
 	run.Assume("E1: code between two lock operations of tracker/peerstore is data-race free; schedules are sequentially consistent interleavings at lock operations; the vsync RWMutex has no writer preference")
 	run.Assume("E1 oracle under a moving clock: an announcement counts as made no earlier than the clock value at the start of the UpdatePeer call and a lookup as made no later than the clock value at its end, so only announcements that are fresh under every placement inside the call intervals are demanded")
 	run.Assume("clock-skew family: two time steps (TTL/2, TTL/2+1) in quick, additionally (TTL/2+1, TTL/2) and (TTL, 1) and the free-clock variant (clock as a fourth thread, acquire points, 2 preemptions) in thorough; the second announcer announces between the two steps except in the free-clock variant")
 	run.Assume("one cleanup thread (LocalStore runs both passes from the single cleanupTask goroutine)")
-	run.Assume("small-scope: 1-2 torrents, 2-3 peers, 2 field variants per peer, TTL = 10 clock units, clock advances of 1 and TTL-1 units")
+	run.Assume("small-scope: 1-2 torrents, 2-3 peers, 2 field variants per peer, TTL = 10 clock units, clock advances of 1 and TTL-1 units; renewal family: 1 torrent, 3 peers, 1 field variant, advances of 1, TTL/2 and TTL-1 units, no bounded-n lookups (only the full lookup after every step)")
 	run.Assume("behaviour exactly at t+TTL (expiry boundary) and of already expired entries is not decided by the statement: the model lets the store keep or drop them")
 	run.Assume("BFS state key identifies states that differ only in how long ago an entry expired (time stamps are only compared with the clock)")
 
@@ -792,12 +805,27 @@ func main() {
 			{name: "1 torrent x 3 peers", nh: 1, np: 3, ns: []int{1, 2, 3}, depth: 7, floor: -1},
 		}
 	}
+	// renewal / two-pass family: 3 peers on ONE torrent, one field variant, no
+	// explicit lookups (the full lookup after every step is the observation), so
+	// that the search reaches histories in which an early list entry is renewed,
+	// an entries pass removes another entry (swap-remove reorders the list) and
+	// a groups pass runs later, with clock steps between all of them.
+	// Runs to its fixpoint (depth 15) in both tiers.
+	renew := bcfg{name: "1 torrent x 3 peers, renewals and separate cleanup passes (fixpoint)", nh: 1, np: 3, vars: 1, depth: 40, floor: -1, advs: []int{1, ttlUnits / 2, ttlUnits - 1}}
+	cfgs = append(cfgs, renew)
 	deadline := time.Now().Add(25 * time.Second)
 	if run.Thorough() {
 		deadline = time.Now().Add(8 * time.Minute)
 	}
 	for _, c := range cfgs {
 		c := c
+		if c.name == renew.name {
+			// own budget: not starved by the searches before it
+			deadline = time.Now().Add(40 * time.Second)
+			if run.Thorough() {
+				deadline = time.Now().Add(4 * time.Minute)
+			}
+		}
 		res := rep.BFS(run, c.name, bfs.Config{MaxDepth: c.depth, Deadline: deadline, New: func() (bfs.System, error) { return newBsys(c) }})
 		for i := 0; i < res.States; i++ {
 			run.Distinct(fmt.Sprintf("%s#%d", c.name, i))
